@@ -42,7 +42,7 @@ def gen_cases(tier, seed):
                 shape[int(rng.integers(0, N))] = 1
             for fam in FAMILIES:
                 yield C(w="tensor", shape=shape, fam=fam)
-                for pat in ("none", "one", "some", "all"):
+                for pat in ("none", "one", "some", "all", "stored-zeros"):
                     yield C(w="sptensor", shape=shape, fam=fam, pattern=pat, base=1)
                 yield C(w="sptensor", shape=shape, fam=fam, pattern="some", base=0)
                 yield C(w="ktensor", shape=shape, fam=fam, R=int(rng.integers(1, 6)))
@@ -83,11 +83,31 @@ def _bits(a):
     return np.ascontiguousarray(np.asarray(a, dtype=np.float64)).view(np.uint64)
 
 
+def _prior_export(case, ctx, rng, d):
+    """History: an earlier export in the same process with explicit, lossy number formats must not influence a later default export."""
+    kind = case["cseed"] % 4
+    fmts = [("%.3f", "%.2f"), ("%d", "%d"), ("%.1e", "%.1e")][case["cseed"] % 3]
+    if kind == 0:
+        obj = ttb.tensor(rng.standard_normal((2, 3)))
+    elif kind == 1:
+        obj = ttb.ktensor([rng.standard_normal((2, 2)), rng.standard_normal((3, 2))], rng.standard_normal(2))
+    elif kind == 2:
+        obj = ttb.sptensor(np.array([[0, 1], [1, 2]]), rng.standard_normal((2, 1)), (2, 3))
+    else:
+        obj = rng.standard_normal((3, 2))
+    r = ctx.call("export_data", ttb.export_data, obj, os.path.join(d, "prior.tns"), fmt_data=fmts[0], fmt_weights=fmts[1])
+    ctx.tag("after-explicit-format-export" if r.ok else "prior-export-raised")
+
+
 def run_case(case, ctx):
     rng = np.random.default_rng(case["cseed"])
     shape = tuple(case["shape"])
     d = tempfile.mkdtemp(prefix="pvm_c16_")
     try:
+        prior = case["cseed"] % 3 == 0
+        ctx.feat(after_explicit_format=prior)
+        if prior:
+            _prior_export(case, ctx, np.random.default_rng(case["cseed"] + 1), d)
         _run(case, ctx, rng, shape, os.path.join(d, "obj.tns"))
     finally:
         shutil.rmtree(d, ignore_errors=True)
@@ -168,11 +188,16 @@ def _run(case, ctx, rng, shape, path):
             lin = rng.choice(n, size=k, replace=False)
             subs = np.stack(np.unravel_index(lin, shape), axis=1)
         else:
-            k = {"none": 0, "one": 1, "some": max(1, n // 2), "all": n}[pat]
+            k = {"none": 0, "one": 1, "some": max(1, n // 2), "all": n, "stored-zeros": max(1, (2 * n) // 3)}[pat]
             k = min(k, n)
             lin = rng.choice(n, size=k, replace=False)
             subs = np.stack(np.unravel_index(lin, shape), axis=1) if k else np.zeros((0, len(shape)), dtype=int)
         vals = _values(rng, k, fam).reshape(-1, 1)
+        if pat == "stored-zeros":
+            # explicitly stored zeros (of either sign) are part of the object: the constructor keeps them, so must the file
+            z = rng.random(k) < 0.4
+            z[int(rng.integers(0, k))] = True
+            vals[z, 0] = rng.choice([0.0, -0.0], size=int(z.sum()))
         S = ttb.sptensor(subs.astype(int), vals.copy(), shape) if k else ttb.sptensor(shape=shape)
         ctx.feat(pattern=pat, base=case["base"])
         dig = state_digest(S)
